@@ -16,7 +16,7 @@ STUBS = ['injector, taps, recording sink, scripted sampling distribution']
 ASSUMPTIONS = ['workloads use configured flows only', 'counters are read after every tap; packet_in_service and Monitor '
                'samples are lenient at instants where a transmission starts or ends',
                'FLOAT workloads: relative tolerance 1e-9 on instants; GRID/DISTINCT exact']
-PROBES = ['no_downstream_device', 'back_to_back', 'arrival_exactly_at_transmission_end', 'monitor_sample', 'many_to_one_map',
+PROBES = ['compared_with_bare_twin', 'library_port_downstream', 'no_downstream_device', 'back_to_back', 'arrival_exactly_at_transmission_end', 'monitor_sample', 'many_to_one_map',
           'kind_SP', 'kind_WFQ', 'kind_VC', 'kind_DRR', 'kind_RR', 'kind_WRR']
 
 
@@ -64,6 +64,7 @@ def run(case):
     stats['kind_' + case['kind']] = 1
     if case.get('fmap') is not None:
         stats['many_to_one_map'] = 1
+    viol += sched.twin_check(r, case, ID, stats)
     res = {'viol': viol, 'digest': digest_of(r.w.log), 'nontrivial': nontrivial, 'stats': stats,
            'simtime': float(r.w.env.now), 'steps': r.w.steps}
     if case.get('_excerpt'):
